@@ -360,6 +360,9 @@ func (e *c36Env) rawRoundTrip(build, fp string, names []string, v c36Variant, ke
 		}
 		return "", "build rejected: " + c36Clip(se), nil
 	}
+	if os.Getenv("C36_GENONLY") != "" { // development aid: only check that the build scripts are accepted
+		return "", "", nil
+	}
 	srcOut, se, err := e.run(src, []byte(fp), "sql", "-r", "csv")
 	if err != nil {
 		if err == errC36Timeout {
@@ -462,7 +465,7 @@ func TestVerif_C36(t *testing.T) {
 		}
 		if skipped != "" {
 			rec.Case(desc, false, "build_rejected")
-			rt.Logf("build script rejected by dolt (case discarded): %s\n%s", skipped, c36Clip(build))
+			fmt.Printf("C36-BUILD-REJECTED: %s\n", strings.ReplaceAll(c36Clip(skipped), "\n", " | "))
 			if os.Getenv("C36_STRICT_BUILD") != "" {
 				rt.Fatalf("build rejected: %s\n%s", skipped, build)
 			}
